@@ -11,7 +11,7 @@ RULE = ("pairs of objects built by setter sequences (any interleaving of group-l
         "before and after; non-trivial when both sides are non-empty and share a group; distinct by model output")
 
 GROUPS = [None, b"A", b"B", b"C"]
-KEYS = [b"x", b"y", b"z"]
+KEYS = [b"x", b"y", b"z", b"az", b"bY"]       # az / bY: equal djb2 hashes
 
 def build_by_setters(rng, o, entries, tagv):
     cmds = [rng.choice(["newini %d" % o, "newkf %d 58 59" % o, "newempty %d" % o])]
